@@ -33,6 +33,11 @@ CLAIMED = {
             "K symbolic front/back steps (stepping on after exhaustion) are compared with std, for the forward and reversed iterator "
             "types; the for_each!/eval! macro route is checked for ranges of up to 4 items. Bounded in the number of steps, not in the values.",
             "DESIGN.md#c09"),
+    "C12": (BMC + "str::parse on symbolic strings (whole-string), and a longest-digit-run reference + str::parse for Parser prefix parsing",
+            "Whole-string parsing of every integer type and bool is compared with str::parse for every string up to the stated length "
+            "(valid UTF-8 for 8/16-bit types, ASCII for wider ones; leading '+' excluded as the property states), plus the 1000-string "
+            "neighbourhoods of MIN and MAX for the 32/64/128-bit types; Parser::parse_* consumes exactly '-'? + the longest digit run, "
+            "returns std's value and the rest (ptr,len,offsets), and on failure reports the start offset and consumes nothing.", "DESIGN.md#c12"),
     "C16": (BMC + "std == / Ord::cmp on symbolic pairs (lexicographic reference for slices), should_panic twins for assertc_eq!/assertc_ne!",
             "Scalars, NonZero*, Ordering, ranges and Option of them are compared with std over their whole domains (exhaustive per pair); "
             "strings, slices of every primitive, slices of strings/byte slices over all contents up to the stated lengths (all length "
